@@ -107,7 +107,16 @@ def o_roundtrip(case):
                 Z = np.full((ny, nx), 2.0)
                 shape = (ny, nx)
             ts = ("2024-03-%02dT%02d:00" % (1 + t, k)) if case["str_ts"] else t
-            series.append(dict(grid=(X, Y, Z), conc=adversarial(rng, shape), flx=adversarial(rng, shape), tower_name=n, timestamp=ts,
+            conc_a, flx_a = adversarial(rng, shape), adversarial(rng, shape)
+            if case.get("mixed_dtype"):
+                # the solver returns float32 fields for precision="single" whenever no complex128 phase factor promoted them
+                # (e.g. a tower at the origin in dispersion mode): result sets mixing float32 and float64 entries are ordinary
+                with np.errstate(over="ignore"):
+                    if rng.random() < (0.7 if (k == 0 and t == 0) else 0.4):
+                        conc_a = np.nan_to_num(conc_a.astype(np.float32), posinf=3e38, neginf=-3e38)
+                    if rng.random() < (0.7 if (k == 0 and t == 0) else 0.4):
+                        flx_a = np.nan_to_num(flx_a.astype(np.float32), posinf=3e38, neginf=-3e38)
+            series.append(dict(grid=(X, Y, Z), conc=conc_a, flx=flx_a, tower_name=n, timestamp=ts,
                                params=dict(ustar=None if z0f else float(rng.uniform(0.1, 1)), mol=float(rng.normal() * 100), wind_speed=float(rng.uniform(1, 9)),
                                            wind_dir=float(rng.uniform(0, 360)), **({"z0": 0.07} if z0f else {}))))
         # all towers share the time axis labels of the first tower
@@ -187,8 +196,9 @@ def run(rng, tier, deep):
                 if tier == "quick" and (nt + ns + three_d) % 2 == 1:
                     continue
                 run_oracle(st, o_roundtrip, dict(towers=nt, steps=ns, three_d=three_d, seed=int(rng.integers(1 << 30)),
-                                                 str_ts=bool(rng.random() < 0.5), z0_forcing=bool(rng.random() < 0.4)))
+                                                 str_ts=bool(rng.random() < 0.5), z0_forcing=bool(rng.random() < 0.4),
+                                                 mixed_dtype=bool(rng.random() < 0.5)))
     return finish(st, "result sets over towers 1..4 x steps 1..4 x 2-D/3-D, values from adversarial float64 bit patterns (+-0, denormals, +-1e308, the default "
-                  "netCDF fill value, negatives), string and integer timestamps, ustar or z0 forcing; correspondence: which (tower, step) every dataset cell, label "
+                  "netCDF fill value, negatives), string and integer timestamps, ustar or z0 forcing, result sets mixing float32 and float64 entries; correspondence: which (tower, step) every dataset cell, label "
                   "and metadata slot holds, vs the Lean assembly model; oracle: bit-identical arrays, ds.sel by name and label, coordinates, metadata, NaN for "
                   "missing ustar", deep, 0)
